@@ -16,6 +16,7 @@ Induction over the call list: no bound on the number of calls.
 -/
 import RubatoProofs.Async.FixedIn
 import RubatoProofs.Async.FixedOut
+import RubatoProofs.Async.FixedInHistory
 import RubatoProofs.Fft.Control
 
 set_option linter.unusedSectionVars false
@@ -186,5 +187,24 @@ theorem fftIo_block_sizes {ri ro : Nat} (hi : 0 < ri) (ho : 0 < ro) (wanted : Na
 
 /-! ### non-vacuity -/
 example : (FixedIn.runIn 8 (441 / 480) [1024, 1024, 17, 0, 5, 300] (-4, 0, 0)).2 = (2370, 2172) := by decide +kernel
+
+end Rubato.C07
+
+namespace Rubato.C07
+open Rubato
+
+/-- **fixed-input, whole `process` histories**: from an accepted constructor call, after ANY list of operations
+(processing calls valid or not, set_chunk_size, reset — the totals restart at a reset), with the totals being the sums
+of the counts the calls returned, `0 ≤ r·total_in − total_out ≤ r·(L − L/2 + 1 + ⌈1/r⌉) ≤ r·(L + 1/r + 3) + 3`. -/
+theorem fixedIn_no_drift_process_level {kind : AKind} (hk : kind = .fastIn ∨ kind = .sincIn)
+    {ratio maxRel : ℚ} {deg : Degree} {sint : SincInterp} {ip : Interp ℚ} {chunk nch : ℕ} {s0 : AState ℚ ℚ}
+    (hL3 : kind = .sincIn → 3 ≤ ip.len) (hn : kind = .sincIn → 1 ≤ ip.nbr)
+    (hn2 : kind = .sincIn → sint = .cubic ∨ sint = .quadratic → 2 ≤ ip.nbr)
+    (hmach : outNextIn chunk ratio ratio ≤ idleFuel)
+    (h0 : AState.init kind ratio maxRel deg sint ip chunk nch = .ok s0) (ops : List FixedInHistory.OpC) :
+    let d := ratio * (FixedInHistory.totalIn s0 ops : ℚ) - (FixedInHistory.totalOut s0 ops : ℚ)
+    0 ≤ d ∧ d ≤ ratio * ((s0.L : ℚ) - ((s0.L / 2 : ℕ) : ℚ) + 1 + (⌈1 / ratio⌉ : ℤ)) ∧
+      d ≤ ratio * ((s0.L : ℚ) + 1 / ratio + 3) + 3 :=
+  FixedInHistory.no_drift_init hk hL3 hn hn2 hmach h0 ops
 
 end Rubato.C07
